@@ -1314,6 +1314,8 @@ func (g *gen) randRecipe(rnd *rand.Rand) *recipe {
 
 // fixedRecipes are run at every seed: every constructor, the id patterns worth naming, the sweeps
 // that put every service and every characteristic constructor of the catalog into a composition.
+var unboundedFloatsRecipe bool
+
 // randSvcFor: the i-th service of a generated large accessory (catalog constructors in turn, every fifth one custom)
 func (g *gen) randSvcFor(i int) svcSpec {
 	if i%5 == 4 || len(g.svcs) == 0 {
@@ -1347,6 +1349,17 @@ func (g *gen) fixedRecipes() []*recipe {
 		all2.Accs = append(all2.Accs, accSpec{Ctor: n, ID: id})
 	}
 	out = append(out, all, all2)
+	// the float characteristics that declare no bounds, in one service, twice (always served: afterWrites aims at them)
+	var open []string
+	for _, n := range g.chars {
+		if n == "NewDigitalZoom" || n == "NewOpticalZoom" || n == "NewTunneledAccessoryStateNumber" {
+			open = append(open, n)
+		}
+	}
+	if len(open) > 0 {
+		unboundedFloatsRecipe = true
+		out = append(out, &recipe{Kind: "unbounded-floats", Accs: []accSpec{{Ctor: "New", Type: 8, Services: []svcSpec{{Ctor: "custom", Chars: open}, {Ctor: "custom", Chars: open}}}}})
+	}
 	// accessories far larger than any constructor builds: 99 / 100 / 101 / 150 / 300 services, and services with
 	// 99 / 100 / 101 / 256 / 300 characteristics (a camera, a bridge, a generated profile), alone and followed by a
 	// normal accessory
@@ -1567,7 +1580,7 @@ func main() {
 	var servedIdx []int
 	for i := 0; i < nFixed && len(servedIdx) < nServed/2; i++ {
 		k := recipes[i].Kind
-		if k == "id-pattern" || k == "all-constructors-mixed" || k == "service-sweep" || k == "characteristic-sweep" || k == "same-service-type-60x" || k == "same-object-again" {
+		if k == "id-pattern" || k == "all-constructors-mixed" || k == "service-sweep" || k == "characteristic-sweep" || k == "same-service-type-60x" || k == "same-object-again" || k == "unbounded-floats" {
 			servedIdx = append(servedIdx, i)
 		}
 	}
@@ -1613,7 +1626,9 @@ func main() {
 	r.Floor("size_sweep_bodies_of_a_multiple_of_the_chunk_size", int(r.Counter("size_sweep_bodies_of_a_multiple_of_the_chunk_size")), 2)
 	r.Floor("size_sweep_answers_abandoned_by_another_controller", int(r.Counter("size_sweep_answers_abandoned_by_another_controller")), 100)
 	r.Floor("databases_fetched_again_after_value_writes", int(r.Counter("databases_fetched_again_after_value_writes"))+1000*r.ViolationCount(), 20)
-	r.Floor("writable_floats_without_bounds_in_served_databases", int(r.Counter("writable_floats_without_bounds_in_served_databases"))+1000*r.ViolationCount(), 2)
+	if unboundedFloatsRecipe {
+		r.Floor("writable_floats_without_bounds_in_served_databases", int(r.Counter("writable_floats_without_bounds_in_served_databases"))+1000*r.ViolationCount(), 2)
+	}
 
 	c.flushTyped()
 
